@@ -2,7 +2,7 @@
 # tools/mutrun.sh <patch> <ID>...   -> one line per check: caught / MISSED
 P="$1"; shift
 for id in "$@"; do
-  out=$(/verif/tools/with_patch.sh "$P" /verif/check "$id" quick 2>&1); rc=$?
+  out=$(A5VERIF_EVIDENCE_DIR=/verif/target/scratch-evidence /verif/tools/with_patch.sh "$P" /verif/check "$id" quick 2>&1); rc=$?
   if [ $rc -eq 1 ]; then echo "$(basename $P) $id: caught -- $(echo "$out" | grep '^violation' | cut -c1-260)";
   elif [ $rc -eq 0 ]; then echo "$(basename $P) $id: MISSED";
   else echo "$(basename $P) $id: HARNESS-ERROR rc=$rc $(echo "$out" | tail -3)"; fi
